@@ -291,7 +291,11 @@ func processFunctionAndAnons(fn *ssa.Function, policy ir.LiteralPolicy, strictMo
 	}
 	visited[fn] = true
 
-	if fn.Synthetic != "" && fn.Name() != "init" {
+	// Synthetic package-level functions (wrappers, thunks) carry no source of their own. A NESTED
+	// synthetic function does: the body of a `for ... range <iterator func>` loop is compiled into
+	// a synthetic yield function below the enclosing function, together with every function
+	// literal written inside that body.
+	if fn.Synthetic != "" && fn.Name() != "init" && fn.Parent() == nil {
 		return
 	}
 
